@@ -16,6 +16,8 @@ import (
 	"sort"
 	"strconv"
 	"strings"
+	"syscall"
+	"time"
 
 	"golang.org/x/perf/benchstat"
 	"golang.org/x/perf/internal/stats"
@@ -80,16 +82,56 @@ func customTest(old, new *benchstat.Metrics) (float64, error) {
 	return benchstat.UTest(old, new)
 }
 
+var errNaNRetained = errors.New("NaN among the retained values")
+
+// guard wraps a DeltaTest: stats.MannWhitneyUTest does not terminate when a sample contains NaN
+// (its tie-counting loop compares merged[i] == v1).  NaN can never be among RValues on a correct
+// computeStats (NaN fails the fence test), so the guard is inert there; if NaN does get through,
+// the row shows this error instead of hanging the run and the S judge reports the retained values.
+func guard(t benchstat.DeltaTest) benchstat.DeltaTest {
+	if os.Getenv("VERIF_C17_NOGUARD") != "" { // self-test of the per-case time limit
+		return t
+	}
+	return func(old, new *benchstat.Metrics) (float64, error) {
+		for _, v := range old.RValues {
+			if math.IsNaN(v) {
+				return -1, errNaNRetained
+			}
+		}
+		for _, v := range new.RValues {
+			if math.IsNaN(v) {
+				return -1, errNaNRetained
+			}
+		}
+		return t(old, new)
+	}
+}
+
+func (tc *tcase) hasNaNInput() bool {
+	for _, r := range tc.results {
+		for _, f := range strings.Fields(r.content) {
+			if v, err := strconv.ParseFloat(f, 64); err == nil && math.IsNaN(v) {
+				return true
+			}
+		}
+	}
+	return false
+}
+
 func (tc *tcase) deltaTest() benchstat.DeltaTest {
 	switch tc.test {
 	case "u":
-		return benchstat.UTest
+		return guard(benchstat.UTest)
 	case "t":
-		return benchstat.TTest
+		return guard(benchstat.TTest)
 	case "n":
 		return benchstat.NoDeltaTest
 	case "c":
-		return customTest
+		return guard(customTest)
+	}
+	// "-": leave DeltaTest nil (the default, UTest) unless the input contains a NaN value
+	if tc.hasNaNInput() {
+		return guard(benchstat.UTest)
 	}
 	return nil
 }
@@ -324,7 +366,68 @@ func (o *oracle) String() (string, string) {
 
 // ---------------------------------------------------------------- running one case
 
+// caseLimit is the wall-clock limit of one case inside the real code.  A case that does not come
+// back is reported as `crash <id> timeout …`; the runaway goroutine cannot be stopped, so the
+// harness flushes its output and re-executes itself, resuming at the next case id (the PRNG
+// stream is regenerated, so the remaining cases are the same).  At most maxTimeouts re-executions
+// happen per shard; then the shard stops.
+const caseLimit = 3 * time.Second
+const maxTimeouts = 8
+
+type caseOut struct {
+	lines   []string
+	crashed string
+}
+
+// inputLine is the case line of a case that produced no output (panic, timeout): inputs only.
+func inputLine(id int, tc *tcase) string {
+	var rs []string
+	for _, r := range tc.results {
+		rs = append(rs, fmt.Sprintf("%d:%s:%s:%s", r.cfg, hx.HexS(r.content), labelStr(r.nl), labelStr(r.lb)))
+	}
+	res := "-"
+	if len(rs) > 0 {
+		res = strings.Join(rs, ",")
+	}
+	return fmt.Sprintf("case %d crashed=1 alpha=%s geo=%d split=%s order=%s test=%s cfgs=%s res=%s tag=crash",
+		id, hx.F64(tc.alpha), b2i(tc.geo), hx.HexListS(tc.split), tc.order, tc.test, hx.HexListS(tc.cfgs), res)
+}
+
 func runCase(id int, tc *tcase) {
+	done := make(chan caseOut, 1)
+	go func() { done <- execCase(id, tc) }()
+	select {
+	case out := <-done:
+		if out.crashed != "" {
+			hx.Printf("%s\n", inputLine(id, tc))
+			hx.Printf("crash %d %s\n", id, strings.ReplaceAll(out.crashed, "\n", " "))
+			return
+		}
+		for _, l := range out.lines {
+			hx.Printf("%s\n", l)
+		}
+	case <-time.After(caseLimit):
+		hx.Printf("%s\n", inputLine(id, tc))
+		hx.Printf("crash %d timeout: the case did not finish within %s (hang inside Collection.Tables / FormatText / FormatCSV)\n", id, caseLimit)
+		hx.Flush()
+		nt, _ := strconv.Atoi(os.Getenv("VERIF_C17_TIMEOUTS"))
+		nt++
+		if nt >= maxTimeouts {
+			fmt.Fprintf(os.Stderr, "c17: %d cases timed out in this shard; stopping the shard at case %d\n", nt, id)
+			os.Exit(0)
+		}
+		os.Setenv("VERIF_C17_TIMEOUTS", strconv.Itoa(nt))
+		os.Setenv("VERIF_C17_RESUME", strconv.Itoa(id+1))
+		exe, err := os.Executable()
+		if err == nil {
+			err = syscall.Exec(exe, os.Args, os.Environ())
+		}
+		fmt.Fprintf(os.Stderr, "c17: cannot re-execute after a timeout: %v\n", err)
+		os.Exit(0)
+	}
+}
+
+func execCase(id int, tc *tcase) (out caseOut) {
 	var lines []string
 	crashed := ""
 	func() {
@@ -424,14 +527,7 @@ func runCase(id int, tc *tcase) {
 		lines = append(lines, fmt.Sprintf("obs %d csvnr=%s", id, hx.Hex(cnb.Bytes())))
 		lines = append(lines, fmt.Sprintf("sobs %d stats1=ok stats2=ok tabs1=ok tabs2=ok same=1", id))
 	}()
-	if crashed != "" {
-		hx.Printf("case %d crashed tag=crash\n", id)
-		hx.Printf("crash %d %s\n", id, strings.ReplaceAll(crashed, "\n", " "))
-		return
-	}
-	for _, l := range lines {
-		hx.Printf("%s\n", l)
-	}
+	return caseOut{lines: lines, crashed: crashed}
 }
 
 func b2i(b bool) int {
@@ -698,10 +794,11 @@ func main() {
 	if nshards <= 0 {
 		nshards = 1
 	}
+	resume, _ := strconv.Atoi(os.Getenv("VERIF_C17_RESUME"))
 	r := hx.NewRand(17)
 	id := 0
 	for _, tc := range fixedCases() {
-		if id%nshards == shard {
+		if id%nshards == shard && id >= resume {
 			runCase(id, tc)
 		}
 		id++
@@ -709,7 +806,7 @@ func main() {
 	n := hx.N(400, 8000)
 	for i := 0; i < n; i++ {
 		tc := genCase(r) // every shard walks the same PRNG stream
-		if id%nshards == shard {
+		if id%nshards == shard && id >= resume {
 			runCase(id, tc)
 		}
 		id++
